@@ -105,8 +105,11 @@ W = [
          json_lines=[{'x': '1\n2'}]),
     dict(id='dtparse-panic', commit='11f8b40', props=['C11'], query='* | parse "ts=*" as ts | parseDate(ts) as d | count', input='ts=2020-01-01\nts=12:30 -\nts=10:15:PM\nts=2020-01-02\n',
          stdout='[{"_count":2}]\n'),
-    dict(id='int-min-trichotomy', commit='d2a8efa', props=['C05', 'C08', 'C13'], query='* | json | a - d as x | x < a as lt | x == a as eq | x > a as gt | fields lt, eq, gt',
-         input='{"a":-9223372036854775808,"d":1}\n', json_lines=[{'eq': True, 'gt': False, 'lt': False}]),
+    dict(id='int-min-trichotomy', commit='d2a8efa', props=['C05', 'C08', 'C13'], query='* | json | a * 2 as x | x < m as lt | x == m as eq | x > m as gt | fields lt, eq, gt',
+         input='{"a":-4611686018427387904,"m":-9223372036854775808}\n', json_lines=[{'eq': True, 'gt': False, 'lt': False}]),
+    dict(id='no-saturated-i64-min', commit='9eb768d', props=['C05', 'C08'], query='* | json | a - d as x | fields id, x',
+         input='{"id":1,"a":-9223372036854775808,"d":1}\n{"id":2,"a":-9223372036854775808,"d":2000}\n{"id":3,"a":-9223372036854775807,"d":1}\n',
+         stdout='{"id":2,"x":-9.223372036854778e18}\n{"id":3,"x":-9223372036854775808}\n', stderr_has='out of range'),
     dict(id='date-is-not-a-number', commit='9840533', props=['C05'], query='* | json | parseDate(a) + parseDate(b) as r | count', input='{"a":"2021-08-11T00:00:00Z","b":"2021-08-12T00:00:00Z"}\n',
          args=['-o', 'json'], stdout='[]\n'),
     dict(id='zero-duration-text', commit='5af605b', props=['C18', 'C19'], query='* | json | parseDate(s) - parseDate(s) as z | 1500ns as t | fields z, t', input='{"s":"2021-08-11T10:00:00Z"}\n',
